@@ -28,7 +28,7 @@ func (c14) Processes(t fw.Tier) int { return tierN(t, 3, 6) }
 func (c14) Rule() string {
 	return "each case takes a schema (generated document of either draft, biased to the map-ranging keywords properties / patternProperties with overlapping patterns / dependentRequired / dependentSchemas / dependencies / nested unevaluated*, " +
 		"or a reflectively populated Schema value) and 6 instances (in canonical and in random non-canonical Go representations) and runs the history " +
-		"Resolve x3, Validate x5 per instance on the first Resolved and x1 on the others, Marshal x3, Resolve again, Validate on old and new Resolved. " +
+		"Resolve x3, Validate x5 per instance on the first Resolved and x1 on the others, Marshal x3, Resolve again, Validate on old and new Resolved, and finally every instance once on a brand-new Resolved (the verdict must not depend on the history of earlier calls). " +
 		"Monitors: a deep snapshot (all fields + pointer graph) of the Schema tree and of every instance before and after each phase must be identical; all repeated verdicts and marshaled bytes must be equal; " +
 		"the whole case list is executed in 3 (quick) / 6 (thorough) fresh processes and the per-case digests (verdict bits + SHA-256 of the bytes) must agree across processes (different hash seeds, randomised map iteration). " +
 		"Non-trivial: the schema has a map-ranged keyword with >=2 entries and some verdict is invalid (where evaluation order could matter); distinct by (ranging keywords present, number of entries, verdict pattern)."
@@ -104,6 +104,49 @@ func (c14) Run(c *fw.Case) {
 		if len(dynInsts) > 8 {
 			dynInsts = dynInsts[:8]
 		}
+	} else if c.Idx%5 == 3 {
+		// overlapping patternProperties: several patterns match the same name, each with its own small constraint; the
+		// history sends the SAME name with different values (rejected by one pattern, by the other, by both, by none),
+		// so a verdict that depends on earlier calls or on map iteration order becomes visible
+		type pp struct {
+			pats  []string
+			names []string
+		}
+		group := gen.Pick(r, []pp{{[]string{"^a", "b$", "^.{2}$", "a|b"}, []string{"ab"}}, {[]string{"^[ab]+$", "^a", "a|b"}, []string{"a", "ab", "aa"}}, {[]string{"[0-9]", "^.{2}$", "0$"}, []string{"10", "00"}}, {[]string{"é", "^.{2}$", "^é"}, []string{"éa", "éé"}}})
+		subs := []map[string]any{{"type": "integer"}, {"maximum": json.Number("10")}, {"minimum": json.Number("0")}, {"multipleOf": json.Number("2")}, {"type": "number"}, {"exclusiveMaximum": json.Number("20")}, {"enum": []any{json.Number("5"), json.Number("20"), "x"}}, {"not": map[string]any{"const": json.Number("5")}}}
+		pats := map[string]any{}
+		for _, i := range r.Perm(len(group.pats))[:2+r.IntN(len(group.pats)-1)] {
+			pats[group.pats[i]] = gen.Pick(r, subs)
+		}
+		inner := map[string]any{"patternProperties": pats}
+		if r.IntN(3) == 0 {
+			inner["additionalProperties"] = false
+		}
+		var doc any = inner
+		wrapI := func(v any) any { return v }
+		switch r.IntN(3) {
+		case 0:
+			doc = map[string]any{"properties": map[string]any{"o": inner}}
+			wrapI = func(v any) any { return map[string]any{"o": v} }
+		case 1:
+			doc = map[string]any{"items": inner}
+			wrapI = func(v any) any { return []any{v} }
+		}
+		docText = gen.Text(doc)
+		var err error
+		var ok bool
+		s, err, ok = unmarshalSchema(c, []byte(docText))
+		if !ok || err != nil {
+			return
+		}
+		vals := []any{json.Number("20.5"), json.Number("20"), json.Number("5.5"), json.Number("5"), json.Number("-1"), "x", json.Number("12"), json.Number("-3"), json.Number("4"), json.Number("10")}
+		for k := 0; k < 8; k++ {
+			o := map[string]any{gen.Pick(r, group.names): gen.Pick(r, vals)}
+			if r.IntN(4) == 0 {
+				o[gen.Pick(r, group.names)] = gen.Pick(r, vals)
+			}
+			dynInsts = append(dynInsts, wrapI(o))
+		}
 	} else if c.Idx%4 == 3 {
 		s = gen.SchemaStruct(r, &gen.StructOpts{Valid: true, MaxDepth: 3, NoRefs: true, PropOrder: true})
 		data, err, ok := marshalSchema(c, s, "generated Schema value")
@@ -170,7 +213,7 @@ func (c14) Run(c *fw.Case) {
 	pattern := ""
 	for i, im := range insts {
 		var inst any
-		if i%2 == 0 {
+		if i%2 == 0 || dynInsts != nil {
 			inst = gen.Canonical(gen.Text(im))
 		} else {
 			inst = gen.Repr(r, im, gen.ReprOpts{}, nil)
@@ -252,6 +295,34 @@ func (c14) Run(c *fw.Case) {
 		c.Eval(1)
 		if v1 != v2 || (i%2 == 0 && (v1 != (pattern[i] == '1'))) {
 			c.Violation("an old and a new Resolved of the same schema disagree", wit(map[string]any{"instance": json.RawMessage(gen.Text(im)), "old": v1, "new": v2}))
+			return
+		}
+	}
+	// history independence: a brand-new Resolved used for ONE call must give the verdict the long-lived one gave
+	// (state that leaks between calls through the Resolved shows up here)
+	for i, im := range insts {
+		if i%2 != 0 && dynInsts == nil {
+			continue // the history verdict of odd positions was taken on a non-canonical representation of the same value
+		}
+		fresh, err, ok := resolveSchema(c, s, docText)
+		if !ok || err != nil {
+			return
+		}
+		inst := gen.Canonical(gen.Text(im))
+		v, ok := validate(c, fresh, docText, inst, gen.Text(im))
+		if !ok {
+			return
+		}
+		c.Eval(1)
+		if v != (pattern[i] == '1') {
+			c.Violation(fmt.Sprintf("a fresh Resolved gives valid=%v where the long-lived Resolved gave %v after a history of calls", v, pattern[i] == '1'),
+				wit(map[string]any{"instance": json.RawMessage(gen.Text(im)), "history_position": i, "history_instances": func() []json.RawMessage {
+					var out []json.RawMessage
+					for _, x := range insts {
+						out = append(out, json.RawMessage(gen.Text(x)))
+					}
+					return out
+				}()}))
 			return
 		}
 	}
